@@ -266,11 +266,17 @@ enum Dist {
     Reset,
     Concurrent,
     OutsideFlood,
+    /// a peer outside the allowlist connects and stays silent (connection held open)
+    OutsideSilent,
+    /// a peer outside the allowlist sends a whole request, reads its answer and idles on keep-alive (held open)
+    OutsideKeepAlive,
+    /// the same from an allowed peer
+    InsideKeepAlive,
 }
-const DISTS: [Dist; 5] = [Dist::Garbage, Dist::HalfRequest, Dist::Reset, Dist::Concurrent, Dist::OutsideFlood];
+const DISTS: [Dist; 8] = [Dist::Garbage, Dist::HalfRequest, Dist::Reset, Dist::Concurrent, Dist::OutsideFlood, Dist::OutsideSilent, Dist::OutsideKeepAlive, Dist::InsideKeepAlive];
 
 fn disturbance_part(ctx: &Ctx, res: &mut PartResult) {
-    res.engine = "E4 disturbance sequences (garbage, half-open, reset, concurrent scrapers) followed by a probe".into();
+    res.engine = "E4 disturbance sequences (garbage, half-open, reset, concurrent scrapers, silent / keep-alive connections held by refused and by allowed peers) followed by a probe".into();
     let mut states = vseq::States::new();
     let mut seqs: Vec<Vec<usize>> = vec![vec![]];
     for a in 0..DISTS.len() {
@@ -338,6 +344,21 @@ fn disturbance_part(ctx: &Ctx, res: &mut PartResult) {
                     Dist::OutsideFlood => {
                         for _ in 0..4 {
                             let _ = get(Ipv4Addr::new(127, 9, 9, 9), ex.addr, "/metrics", Duration::from_secs(3));
+                        }
+                    }
+                    Dist::OutsideSilent => {
+                        if let Ok(s) = connect_from(Ipv4Addr::new(127, 9, 9, 8), ex.addr, false) {
+                            held.push(s);
+                        }
+                    }
+                    Dist::OutsideKeepAlive | Dist::InsideKeepAlive => {
+                        let src = if matches!(DISTS[*d], Dist::OutsideKeepAlive) { Ipv4Addr::new(127, 9, 9, 7) } else { Ipv4Addr::new(127, 0, 0, 2) };
+                        if let Ok(mut s) = connect_from(src, ex.addr, false) {
+                            let _ = s.write_all(b"GET /metrics HTTP/1.1\r\nHost: x\r\n\r\n");
+                            s.set_read_timeout(Some(Duration::from_millis(500))).unwrap();
+                            let mut t = [0u8; 4096];
+                            let _ = s.read(&mut t); // (part of) the answer; the connection then idles
+                            held.push(s);
                         }
                     }
                 }
@@ -679,7 +700,7 @@ fn main() {
     driver::main(CheckDef {
         prop: "C18",
         level: "fault_enumeration",
-        rule: "allowlists = none and all subsets of size 1-2 (thorough: ordered pairs and subsets of size 3) of {127.0.0.1 (plain address), 127.0.0.2/32, 127.0.0.0/30, 127.0.1.0/24, 10.0.0.0/8, ::1/128} x peers bound to {127.0.0.1,.2,.3,.4, 127.0.1.0, 127.0.1.255, 127.0.2.0, 127.1.1.1} x paths {/, /metrics, /health, /healthz}, one request each against a fresh real exporter (builder.build() on a tokio runtime); oracle: independent CIDR arithmetic; inside => 200 and the body parses (strict parser) to exactly the recorded state, /health => OK; outside => 403 with an empty body; plus all disturbance sequences of length <= 2 (thorough 3) over {garbage bytes, half a request then idle, connect + RST, 8 concurrent scrapers, 4 refused scrapes} each followed by probes that must be served; plus an exporter listening on [::1] scraped from ::1 under no allowlist and all subsets of size 1-2 of {::1, ::1/128, ::/64, ::/8, fe80::/10, 2001:db8::/32, 127.0.0.1, 0.0.0.0/8} (an IPv4 network never admits an IPv6 peer); plus all sequences (depth <= 3 quick / 5 thorough) over {record, scrape, wait for the exporter's periodic upkeep task (15 ms period)}: every scrape reports exactly the samples recorded so far; distinct_nontrivial = distinct (allowlist, peer, outcome) / (sequence, outcome) cases",
+        rule: "allowlists = none and all subsets of size 1-2 (thorough: ordered pairs and subsets of size 3) of {127.0.0.1 (plain address), 127.0.0.2/32, 127.0.0.0/30, 127.0.1.0/24, 10.0.0.0/8, ::1/128} x peers bound to {127.0.0.1,.2,.3,.4, 127.0.1.0, 127.0.1.255, 127.0.2.0, 127.1.1.1} x paths {/, /metrics, /health, /healthz}, one request each against a fresh real exporter (builder.build() on a tokio runtime); oracle: independent CIDR arithmetic; inside => 200 and the body parses (strict parser) to exactly the recorded state, /health => OK; outside => 403 with an empty body; plus all disturbance sequences of length <= 2 (thorough 3) over {garbage bytes, half a request then idle, connect + RST, 8 concurrent scrapers, 4 refused scrapes, a silent connection held open by a refused peer, a keep-alive connection idling after its answer held by a refused peer and by an allowed peer} each followed by probes that must be served; plus an exporter listening on [::1] scraped from ::1 under no allowlist and all subsets of size 1-2 of {::1, ::1/128, ::/64, ::/8, fe80::/10, 2001:db8::/32, 127.0.0.1, 0.0.0.0/8} (an IPv4 network never admits an IPv6 peer); plus all sequences (depth <= 3 quick / 5 thorough) over {record, scrape, wait for the exporter's periodic upkeep task (15 ms period)}: every scrape reports exactly the samples recorded so far; distinct_nontrivial = distinct (allowlist, peer, outcome) / (sequence, outcome) cases",
         assumptions: &["tokio / hyper task scheduling runs free: request histories are enumerated, not the server's internal interleavings", "a response is awaited 3 s and then once more for 30 s before 'not served' is reported"],
         parts,
         run,
